@@ -8,3 +8,9 @@ package certstore
 //@   property C09, C20, C16
 //@   pure
 //@   ensures result == cs.latestCertificate
+
+//@ func (*Store).Put
+//@   modifies auto
+//@   assumes result == nil ==> cs.latestCertificate != nil && cs.latestCertificate.GPBFTInstance >= old(cert.GPBFTInstance)
+//@   assumes cs.latestCertificate != nil ==> cs.latestCertificate.GPBFTInstance < 18446744073709551615
+//@   assumes old(cs.latestCertificate) != nil ==> cs.latestCertificate != nil && cs.latestCertificate.GPBFTInstance >= old(cs.latestCertificate.GPBFTInstance)
